@@ -24,9 +24,10 @@ All theorems are for every posting list and every valuation of the postings
 * `--subtotal`, `--by-payee`, `--dow`, `--collapse`, `--depth N`: `GroupSums` –
   one row per group, every group present, each row's value and the grand total
   equal to the per-commodity sums (denotation `den`) of the member postings; also
-  for two stages in a row (`*_then_*`), where subtotal_posts must not be handed a
-  multi-commodity row (guard `noCompound`; the unguarded statement is refuted),
-  and with the grand total through any stack of stages (`regroup_total`).
+  for two stages in a row (`*_then_*`; subtotal_posts reads the compound value of a
+  row handed down to it – `subtotal_reads_compound`, extracted; without that the
+  row is lost, `compound_row_lost_without_flag`), and with the grand total through
+  any stack of stages (`regroup_total`).
   subtotal_posts sums `post.amount`, not the amount expression: under a valuation
   that differs from the amount its rows are not the sums of the register's values
   (`subtotal_valued_everywhere_false`).
@@ -62,9 +63,9 @@ theorem C17.sort_is_stable_sort : Gen.Regroup.sortCall = "std::stable_sort" := r
 /-- the regrouping maps are ordered maps keyed as the model keys them -/
 theorem C17.containers_pinned :
     (Gen.Regroup.valuesMapType, Gen.Regroup.totalsMapType, Gen.Regroup.payeeMapType,
-     Gen.Regroup.subtotalKey, Gen.Regroup.subtotalAmount, Gen.Regroup.dowIndex) =
+     Gen.Regroup.subtotalKey, Gen.Regroup.dowIndex) =
     (Pinned.Regroup.valuesMapType, Pinned.Regroup.totalsMapType, Pinned.Regroup.payeeMapType,
-     Pinned.Regroup.subtotalKey, Pinned.Regroup.subtotalAmount, Pinned.Regroup.dowIndex) := rfl
+     Pinned.Regroup.subtotalKey, Pinned.Regroup.dowIndex) := rfl
 
 /-- collapse's totals map compares account names with `<` (ascending name order) -/
 theorem C17.totals_order : Gen.Regroup.totalsOrder = .lt := rfl
@@ -288,8 +289,8 @@ theorem C17.plain_good (f : Filter) (j : Journal) :
     · cases hq
   refine ⟨fun p hp => ?_, fun p hp => ?_, fun p hp => ?_⟩
   · obtain ⟨a, _, h2⟩ := key p hp; simp [h2, isQty]
-  · obtain ⟨a, h1, _⟩ := key p hp; exact ⟨.amt a, by simp [subAmt, h1], rfl⟩
-  · obtain ⟨a, h1, h2⟩ := key p hp; simp [rawAmt, subAmt, h1, h2]
+  · obtain ⟨a, h1, _⟩ := key p hp; exact ⟨.amt a, subAmt_amt h1, rfl⟩
+  · obtain ⟨a, h1, h2⟩ := key p hp; simp [rawAmt, subAmt_amt h1, h2]
 
 /-- calc_posts: the running total on row `k` is the per-commodity sum of the
     values of rows `0..k`; on the last row it is the grand total. -/
@@ -364,23 +365,22 @@ theorem C17.collapse_depth_rows_sorted (n : Nat) (posts : List RPost) :
 
 /-! ### two regrouping options together (chain.cc order: dow | by-payee → subtotal → collapse) -/
 
-/-- `--by-payee --subtotal` and `--dow --subtotal`: when no row handed to subtotal_posts is a
-    compound (multi-commodity) one, the outcome is the `--subtotal` regrouping of the
-    original postings. -/
+/-- subtotal_posts takes the compound value of a posting handed down by another
+    subtotalling handler (the source as extracted; before fix 08839e9 it did not). -/
+theorem C17.subtotal_reads_compound : Gen.Regroup.subtotalReadsCompound = true := by decide
+
+/-- `--by-payee --subtotal`: the outcome is the `--subtotal` regrouping of the original
+    postings – every account's row is the exact sum of its postings, no guard needed. -/
 theorem C17.by_payee_then_subtotal (posts r1 r2 : List RPost) (hq : GoodAmts posts) (h1 : byPayee posts = .ok r1)
-    (hnc : noCompound r1 = true) (h2 : subtotal r1 = .ok r2) :
+    (h2 : subtotal r1 = .ok r2) :
     GroupSums rawAmt (fun r => r.value) (fun p => p.account) (fun r => r.account) posts r2 :=
-  byPayee_subtotal_groups posts r1 r2 hq h1 hnc h2
+  byPayee_subtotal_groups posts r1 r2 hq h1 (noCompound_of_flag C17.subtotal_reads_compound r1) h2
 
+/-- `--dow --subtotal`: likewise. -/
 theorem C17.dow_then_subtotal (posts r1 r2 : List RPost) (hq : GoodAmts posts) (h1 : dow posts = .ok r1)
-    (hnc : noCompound r1 = true) (h2 : subtotal r1 = .ok r2) :
+    (h2 : subtotal r1 = .ok r2) :
     GroupSums rawAmt (fun r => r.value) (fun p => p.account) (fun r => r.account) posts r2 :=
-  dow_subtotal_groups posts r1 r2 hq h1 hnc h2
-
-/-- The same without the guard – the sums identity one would like for the stack. -/
-def C17.StackedSubtotalEverywhere : Prop :=
-  ∀ (posts r1 r2 : List RPost), GoodAmts posts → byPayee posts = .ok r1 → subtotal r1 = .ok r2 →
-    GroupSums rawAmt (fun r => r.value) (fun p => p.account) (fun r => r.account) posts r2
+  dow_subtotal_groups posts r1 r2 hq h1 (noCompound_of_flag C17.subtotal_reads_compound r1) h2
 
 /-- two postings of one payee to one account in two commodities -/
 def C17.w2 : List RPost :=
@@ -391,22 +391,18 @@ def C17.okOr (e : Except RErr (List RPost)) : List RPost :=
   | .ok r => r
   | .error _ => []
 
-/-- It is false: `--by-payee` hands `A  $1, 1 EUR` over as a compound posting, whose
-    `post.amount` is null; `--subtotal` then reports 0 for A (filters.cc 902). -/
-theorem C17.stacked_subtotal_everywhere_false : ¬ C17.StackedSubtotalEverywhere := by
-  intro h
-  have hg : GoodAmts C17.w2 := by
-    intro p hp
-    simp only [C17.w2, List.mem_cons, List.not_mem_nil, or_false] at hp
-    rcases hp with rfl | rfl <;> exact ⟨_, rfl, rfl⟩
-  have h1 : byPayee C17.w2 = .ok (C17.okOr (byPayee C17.w2)) := by decide +kernel
-  have h2 : subtotal (C17.okOr (byPayee C17.w2)) = .ok (C17.okOr (subtotal (C17.okOr (byPayee C17.w2)))) := by
-    decide +kernel
-  have G := h _ _ _ hg h1 h2
-  have ht := G.total "$"
-  have : ¬ (sumDenBy (fun r => r.value) (C17.okOr (subtotal (C17.okOr (byPayee C17.w2)))) "$" =
-      sumDenBy rawAmt C17.w2 "$") := by decide +kernel
-  exact this ht
+/-- Why the flag matters (the witness of the defect fixed by 08839e9): `--by-payee` hands
+    `A  $1, 1 EUR` over as ONE compound row worth $1; read as `post.amount` only
+    (`subAmtWith false`) it is a null amount, i.e. contributes nothing to `--subtotal`. -/
+theorem C17.compound_row_lost_without_flag :
+    (C17.okOr (byPayee C17.w2)).map (fun r => (r.account, decide (r.value.den "$" = 1), (subAmtWith false r).isNone,
+      subAmtWith true r == some r.amount)) = [("A", true, true, true)] := by decide +kernel
+
+/-- … and with it the stacked report of the witness is right: A = $1 + 1 EUR. -/
+theorem C17.compound_row_kept_with_flag :
+    (C17.okOr (subtotal (C17.okOr (byPayee C17.w2)))).map
+      (fun r => (r.account, decide (r.value.den "$" = 1), decide (r.value.den "EUR" = 1))) = [("A", true, true)] := by
+  decide +kernel
 
 /-- `--subtotal --collapse` / `--subtotal --depth N`: the subtotal rows form one transaction, so
     the outcome is the original postings regrouped by ancestor account at depth N (one `<Total>`
@@ -434,25 +430,24 @@ theorem C17.dow_then_depth (n : Nat) (hn : n ≠ 0) (posts r1 : List RPost) (hq 
 
 /-- The grand total through ANY stack of regrouping stages (--dow | --by-payee, --subtotal,
     --collapse / --depth N): the per-commodity sum of the rows is that of the postings, given that
-    subtotal_posts reads what it is handed correctly – `hfirst`: the first subtotal-family stage
-    sees single amounts valued as themselves; `hmid`: no compound row goes from --dow or
-    --by-payee into --subtotal. -/
+    the first subtotal-family stage sees amounts valued as themselves (`hfirst`: no valuation
+    such as -B, which subtotal_posts ignores – `C17.subtotal_valued_everywhere_false`). -/
 theorem C17.regroup_total (o : Opts) (posts rows : List RPost) (h : regroup o posts = .ok rows)
     (hq : AllQty posts)
     (hfirst : (o.pre ≠ .none ∨ o.subtotal = true) → GoodAmts posts ∧ ∀ p ∈ posts, rawAmt p = p.value)
-    (hmid : o.pre ≠ .none → o.subtotal = true → ∀ s1, preStage o posts = .ok s1 → noCompound s1 = true)
     (c : Comm) : sumDen rows c = sumDen posts c :=
-  (Regroup.regroup_total o posts rows h hq hfirst hmid c).1
+  (Regroup.regroup_total o posts rows h hq hfirst
+    (fun _ _ s1 _ => noCompound_of_flag C17.subtotal_reads_compound s1) c).1
 
 /-- … and the running total printed on the last row of the report is that grand total
     (sorting included; truncation only drops rows). -/
 theorem C17.grand_total (o : Opts) (posts s : List RPost) (h : regroup o posts = .ok s)
     (hq : AllQty posts)
     (hfirst : (o.pre ≠ .none ∨ o.subtotal = true) → GoodAmts posts ∧ ∀ p ∈ posts, rawAmt p = p.value)
-    (hmid : o.pre ≠ .none → o.subtotal = true → ∀ s1, preStage o posts = .ok s1 → noCompound s1 = true)
     (c : Comm) (r : RPost × Value) (hl : (register (sortStage o s)).getLast? = some r) :
     r.2.den c = sumDen posts c := by
-  obtain ⟨htot, hqs⟩ := Regroup.regroup_total o posts s h hq hfirst hmid c
+  obtain ⟨htot, hqs⟩ := Regroup.regroup_total o posts s h hq hfirst
+    (fun _ _ s1 _ => noCompound_of_flag C17.subtotal_reads_compound s1) c
   have hperm : (sortStage o s).Perm s := by
     unfold sortStage
     split
@@ -521,9 +516,6 @@ example : ((dow sample).toOption.map List.length) = some 6 := by decide +kernel
 example : (collapse 0 true id sample).map (·.account) = ["<Total>", "<Total>", "<Total>"] := by decide +kernel
 example : ∀ c, sumDen (collapse 1 false id sample) c = sumDen sample c :=
   (C17.depth_sums 1 (by decide) id (fun _ => List.Perm.refl _) sample sample_allQty).2.2
-/-- the guard of the stacked theorems holds on single-commodity-per-group data … -/
-example : noCompound (C17.okOr (dow [C17.w 2 1 "$", C17.w 3 2 "$"])) = true := by decide +kernel
-/-- … and fails on the witness of `C17.stacked_subtotal_everywhere_false` -/
-example : noCompound (C17.okOr (byPayee C17.w2)) = false := by decide +kernel
+example : ((subtotal (C17.okOr (byPayee sample))).toOption.map List.length) = some 4 := by decide +kernel
 
 end Ledger
